@@ -1956,8 +1956,10 @@ class Builder:
         parameter p of an inlined function that was given a parameterless
         lambda (a deferred expression: `run(lambda: sender.send(io))`)"""
         f = e.func
-        if not isinstance(f, ast.Name) or e.args or e.keywords:
+        if not isinstance(f, ast.Name) or e.keywords:
             return None
+        if e.args:
+            return self._lambda_applied(e, frame)
         fr, depth = frame, 0
         name = f.id
         while depth < 4 and name in getattr(fr, 'arg_exprs', {}) and \
@@ -1979,6 +1981,63 @@ class Builder:
             name, fr = x.id, xf
             depth += 1
         return None
+
+    def _lambda_applied(self, e: ast.Call, frame):
+        """`write(self.io)` for a parameter bound to `lambda io: ...`: the
+        lambda's body with its parameters replaced by the arguments, when
+        these are attribute paths of self (both frames being methods of the
+        same object) or constants.  (expression, frame) or None."""
+        import copy as _copy
+        name = e.func.id
+        fr = frame
+        if not (name in getattr(fr, 'arg_exprs', {}) and
+                name in fr.ctx.func.params):
+            return None
+        from .model import walk_own
+        if any(isinstance(x, ast.Name) and x.id == name and
+               isinstance(x.ctx, (ast.Store, ast.Del))
+               for x in walk_own(fr.ctx.func.node)):
+            return None
+        x, xf = fr.arg_exprs[name]
+        if not isinstance(x, ast.Lambda):
+            return None
+        a = x.args
+        if a.posonlyargs or a.kwonlyargs or a.vararg or a.kwarg or \
+                a.defaults or len(a.args) != len(e.args):
+            return None
+
+        def portable(v):
+            if isinstance(v, ast.Constant):
+                return True
+            while isinstance(v, ast.Attribute):
+                v = v.value
+            return isinstance(v, ast.Name) and \
+                v.id == fr.ctx.func.self_name and \
+                xf.ctx.func.self_name is not None and \
+                fr.self_same and xf.self_same
+        if not all(portable(v) for v in e.args):
+            return None
+        subst = {}
+        for p0, v in zip(a.args, e.args):
+            v2 = _copy.deepcopy(v)
+            # spelled with the defining frame's name for self
+            for y in ast.walk(v2):
+                if isinstance(y, ast.Name) and \
+                        y.id == fr.ctx.func.self_name:
+                    y.id = xf.ctx.func.self_name
+            subst[p0.arg] = v2
+
+        class _Sub(ast.NodeTransformer):
+            def visit_Name(self, node):
+                if isinstance(node.ctx, ast.Load) and node.id in subst:
+                    return ast.copy_location(
+                        _copy.deepcopy(subst[node.id]), node)
+                return node
+        body = _Sub().visit(_copy.deepcopy(x.body))
+        ast.fix_missing_locations(body)
+        return ast.Lambda(args=ast.arguments(
+            posonlyargs=[], args=[], kwonlyargs=[], kw_defaults=[],
+            defaults=[]), body=body), xf
 
     def _call(self, e: ast.Call, frame):
         ctx = frame.ctx
